@@ -11,7 +11,7 @@ import (
 )
 
 func init() {
-	probeNames["C16"] = []string{"bitflip", "tear_over_old", "tear_zero", "zeroed", "scribble", "field", "outside_header", "both_damaged", "damaged_newest", "damaged_older", "still_valid_skipped", "txid_wrap", "slot0_newest", "slot1_newest"}
+	probeNames["C16"] = []string{"bitflip", "copy_of_other", "tear_over_old", "tear_zero", "zeroed", "scribble", "field", "outside_header", "both_damaged", "damaged_newest", "damaged_older", "still_valid_skipped", "txid_wrap", "slot0_newest", "slot1_newest"}
 	register(&PropDef{
 		ID: "C16", Level: "fault_enumeration", QuickSec: 55, ThoroSec: 1200,
 		Rule: "each run = one seeded committed history (all page sizes, some re-based to txids around 2^64 and 2^63); after a seeded commit n an image is taken (S_n and S_{n-1} both intact). Evaluations = damaged images opened by the real engine: for each of the two header slots all 672 single-bit flips of the 84 header bytes, all byte-prefix tears (prefix of the slot content followed by the slot's previous content, and followed by zeros), zeroed slot, 64 random multi-byte scribbles (thorough; 24 quick), bit flips in the rest of the header page (must change nothing), and sampled pairs with both slots damaged. Oracle: newest slot damaged => Open succeeds and state == S_{n-1} (by header txid and full content); older slot damaged => S_n; damage outside the 84 bytes => S_n; both damaged => Open returns an error; never a panic. A damaged slot that still validates (checksum collision or no-op tear) is skipped and counted. Non-trivial = damaged image whose damaged slot no longer validates; distinct = (run, slot, kind, offset, bit/len).",
@@ -124,6 +124,14 @@ func c16Body(e *Env) {
 		switch {
 		case dm.Kind == "outside":
 			exp = pick.sn
+		case dm.Kind == "copy_of_other":
+			// the slot holds a byte-identical copy of the other header (misdirected or
+			// duplicated write): both describe the state of the other slot
+			if dm.Slot == newest {
+				exp = pick.sp
+			} else {
+				exp = pick.sn
+			}
 		case dm.Slot2 != nil:
 			if damagedValid[0] || damagedValid[1] {
 				e.Probe("still_valid_skipped")
@@ -205,6 +213,8 @@ func c16Body(e *Env) {
 	drng := e.Rng("damage")
 	// both headers intact: the newer commit wins (also across txid wrap-around)
 	eval(&Damage{Slot: 0, Kind: "outside", Off: headerSize, Bit: 0, Len: -1})
+	eval(&Damage{Slot: 0, Kind: "copy_of_other"})
+	eval(&Damage{Slot: 1, Kind: "copy_of_other"})
 	for slot := 0; slot < 2 && !e.Failed(); slot++ {
 		for off := 0; off < headerSize; off++ {
 			for bit := 0; bit < 8; bit++ {
@@ -295,6 +305,9 @@ func applyDamage(img, prev []byte, ps int, dm *Damage) {
 		}
 	case "scribble", "field":
 		copy(h[dm.Off:], dm.Bytes)
+	case "copy_of_other":
+		other := (1 - dm.Slot) * ps
+		copy(h[:headerSize], img[other:other+headerSize])
 	}
 	if dm.Slot2 != nil {
 		applyDamage(img, prev, ps, dm.Slot2)
